@@ -5,7 +5,7 @@
     [==] ([Lib/Bin64.v]), denominators [0 < d < 2^53].
     No axioms: the binary64 model is integer arithmetic over [Z]. *)
 From Coq Require Import ZArith NArith Bool.
-From Shexer Require Import Lib.Bin64 Model.Freq Model.FreqInst Proofs.Bin64Round Proofs.FreqLaws.
+From Shexer Require Import Lib.Bin64 Model.Freq Model.FreqInst Proofs.Bin64Round Proofs.FreqLaws Proofs.Bin64Sum.
 Local Open Scope Z_scope.
 
 Theorem FreqLaws_QAlg : FreqLaws QAlg (fun d => 0 < d)%N wf_frac.
@@ -77,3 +77,33 @@ Proof. vm_compute. reflexivity. Qed.
 Example strict_needs_bound :
   exists n1 n2 d, n1 < n2 <= d /\ feq64 (div64 n1 d) (div64 n2 d) = true.
 Proof. exists (2 ^ 54 - 1), (2 ^ 54), (2 ^ 54). vm_compute. split; [split; [reflexivity | discriminate] | reflexivity]. Qed.
+
+(** ** the sum of two ratios (IRI + BNode merge): [a/d + b/d == 1 <-> a + b = d] *)
+
+Theorem FreqSumLaws_QAlg : FreqSumLaws QAlg (fun d => 0 < d)%N.
+Proof. exact QAlg_sum_laws. Qed.
+Print Assumptions FreqSumLaws_QAlg.
+
+Theorem FreqSumLaws_BAlg : FreqSumLaws BAlg (fun d => 0 < d <= 2 ^ 52)%N.
+Proof. exact BAlg_sum_laws. Qed.
+Print Assumptions FreqSumLaws_BAlg.
+
+Theorem Bin64_sum_eq_one :
+  forall a b d, 0 <= a -> 0 <= b -> 0 < d -> a + b = d -> qeq (add64 (div64 a d) (div64 b d)) (1, 1).
+Proof. exact sum_eq_one. Qed.
+Print Assumptions Bin64_sum_eq_one.
+
+Theorem Bin64_sum_lt_one :
+  forall a b d, 0 <= a -> 0 <= b -> a + b < d -> d <= 2 ^ 52 -> qlt (add64 (div64 a d) (div64 b d)) (1, 1).
+Proof. exact sum_lt_one. Qed.
+Print Assumptions Bin64_sum_lt_one.
+
+(** the bound [d <= 2^52] of [Bin64_sum_lt_one] cannot be raised to [2^53]:
+    CPython gives float(a)/float(d) + float(b)/float(d) == 1.0 for these counts *)
+Example sum_lt_one_needs_bound :
+  exists a b d, 0 <= a /\ 0 <= b /\ a + b < d /\ d < 2 ^ 53 /\
+                feq64 (add64 (div64 a d) (div64 b d)) (1, 1) = true.
+Proof.
+  exists 3735027241743684, 4782519514342765, 8517546756086450. vm_compute.
+  repeat split; discriminate.
+Qed.
